@@ -91,6 +91,37 @@ MECH_PARTS = {
 MECHS = {n: (lambda mk, dr: (lambda rs: dr(mk(rs))))(mk, dr) for n, (mk, dr) in MECH_PARTS.items()}
 
 
+# looping samplers in LOW-ACCEPTANCE configurations (acceptance 1e-2 … 1e-4: long rejection runs, big batches) and other
+# parameter regions that take a different path through randomise: (mechanism, variant, make, draw)
+MECH_EXTRA = [
+    ("LaplaceBoundedDomain", "low-acceptance", lambda rs: M.LaplaceBoundedDomain(epsilon=1e-3, sensitivity=1.0, lower=0.0,
+                                                                                upper=1.0, random_state=rs),
+     lambda m: [m.randomise(0.5) for _ in range(4)]),
+    ("LaplaceBoundedDomain", "narrow-domain", lambda rs: M.LaplaceBoundedDomain(epsilon=0.05, sensitivity=1.0, lower=0.0,
+                                                                               upper=0.01, random_state=rs),
+     lambda m: [m.randomise(0.005) for _ in range(4)]),
+    ("LaplaceBoundedNoise", "low-acceptance", lambda rs: M.LaplaceBoundedNoise(epsilon=1e-3, delta=0.4, sensitivity=1.0,
+                                                                              random_state=rs),
+     lambda m: [m.randomise(0.0) for _ in range(4)]),
+    ("LaplaceBoundedNoise", "low-acceptance-2", lambda rs: M.LaplaceBoundedNoise(epsilon=1e-4, delta=0.49, sensitivity=1.0,
+                                                                                random_state=rs),
+     lambda m: [m.randomise(0.0) for _ in range(4)]),
+    ("GaussianDiscrete", "wide", lambda rs: M.GaussianDiscrete(epsilon=0.01, delta=0.01, sensitivity=1, random_state=rs),
+     lambda m: [m.randomise(0) for _ in range(24)]),
+    ("Bingham", "sharp", lambda rs: M.Bingham(epsilon=30.0, random_state=rs),
+     lambda m: list(np.ravel([m.randomise(np.diag([5.0, 1.0, 0.2, 0.0])) for _ in range(2)]))),
+    ("PermuteAndFlip", "steep", lambda rs: M.PermuteAndFlip(epsilon=0.2, sensitivity=1, utility=[0.0] * 4 + [-50.0] * 60,
+                                                            random_state=rs),
+     lambda m: [m.randomise() for _ in range(128)]),
+    ("Geometric", "tiny-epsilon", lambda rs: M.Geometric(epsilon=1e-6, sensitivity=1, random_state=rs),
+     lambda m: [m.randomise(0) for _ in range(8)]),
+    ("Snapping", "tiny-sensitivity", lambda rs: M.Snapping(epsilon=1.0, sensitivity=1e-6, lower=-1.0, upper=1.0, random_state=rs),
+     lambda m: [m.randomise(0.0) for _ in range(64)]),
+    ("Staircase", "tiny-epsilon", lambda rs: M.Staircase(epsilon=1e-3, sensitivity=1.0, random_state=rs),
+     lambda m: [m.randomise(0.0) for _ in range(4)]),
+]
+
+
 def _pickle_roundtrip(m):
     import pickle
     return pickle.loads(pickle.dumps(m))
@@ -108,7 +139,7 @@ _DATA = {}
 
 
 def data():
-    if not _DATA:
+    if "X" not in _DATA:
         rs = np.random.RandomState(12345)
         X = rs.uniform(0, 1, (1500, 16))
         _DATA["X"] = X
@@ -171,31 +202,70 @@ def _quantile_frac(rs):
                       for _ in range(3)])
 
 
+def _wide():
+    """200 x 1024: many output cells for the per-cell wrapper"""
+    if "W" not in _DATA:
+        _DATA["W"] = np.random.RandomState(77).uniform(0, 1, (200, 1024))
+    return _DATA["W"]
+
+
+def _x3():
+    if "X3" not in _DATA:
+        _DATA["X3"] = np.random.RandomState(78).uniform(0, 1, (3000, 3))
+    return _DATA["X3"]
+
+
+def chunks(hist, n=16):
+    """one call on a BIG grid; the cells are compared in `n` groups (each a long integer vector)"""
+    flat_ = list(np.ravel(hist))
+    step = max(1, len(flat_) // n)
+    return disc(**{f"cells{i}": flat_[i * step:(i + 1) * step] for i in range(n)})
+
+
 TOOLS = {
-    "count_nonzero": [("axis0", lambda rs: repeat_cells(lambda: T.count_nonzero(
+    "count_nonzero": [("big:1024-columns", lambda rs: chunks(T.count_nonzero(
+        _wide() > 0.5, epsilon=0.05, axis=0, random_state=rs, accountant=acc()), 8)),("axis0", lambda rs: repeat_cells(lambda: T.count_nonzero(
         data()["X"] > 0.5, epsilon=0.05, axis=0, random_state=rs, accountant=acc()), 8))],
     "mean": [("axis0", _tool("mean")),
              ("scalar", lambda rs: cont(call=[T.mean(data()["X"], epsilon=1.0, bounds=(0.0, 1.0), random_state=rs,
                                                      accountant=acc()) for _ in range(3)]))],
-    "nanmean": [("axis0", _tool("nanmean"))],
-    "var": [("axis0", _tool("var"))],
+    "nanmean": [("axis0", _tool("nanmean")),
+                ("big:1024-columns", lambda rs: cont(cell=T.nanmean(_wide(), epsilon=1.0, bounds=(0.0, 1.0), axis=0,
+                                                                    random_state=rs, accountant=acc())[::8]))],
+    "var": [("axis0", _tool("var")),
+            ("big:1024-columns", lambda rs: cont(cell=T.var(_wide(), epsilon=1.0, bounds=(0.0, 1.0), axis=0, random_state=rs,
+                                                            accountant=acc())[::8]))],
     "nanvar": [("axis0", _tool("nanvar"))],
     "std": [("axis0", _tool("std"))],
     "nanstd": [("axis0", _tool("nanstd"))],
     "sum": [("axis0", _tool("sum")),
+            ("big:1024-columns", lambda rs: cont(cell=T.sum(_wide(), epsilon=1.0, bounds=(0.0, 1.0), axis=0, random_state=rs,
+                                                            accountant=acc())[::8])),
             ("int", lambda rs: repeat_cells(lambda: T.sum(data()["Xi"][:, :6], epsilon=0.5, bounds=(0, 10), axis=0, dtype=int,
                                                           random_state=rs, accountant=acc()), 10))],
     "nansum": [("axis0", _tool("nansum")),
                ("int", lambda rs: repeat_cells(lambda: T.nansum(data()["Xi"][:, :6], epsilon=0.5, bounds=(0, 10), axis=0,
                                                                 dtype=int, random_state=rs, accountant=acc()), 10))],
-    "histogram": [("8bins", lambda rs: repeat_cells(lambda: T.histogram(
+    "histogram": [("big:2^15-bins", lambda rs: chunks(T.histogram(_x3()[:, 0], epsilon=0.05, bins=2 ** 15, range=(0.0, 1.0),
+                                                                  random_state=rs, accountant=acc())[0])),
+                  ("8bins", lambda rs: repeat_cells(lambda: T.histogram(
         data()["X"][:, 0], epsilon=0.05, bins=8, range=(0.0, 1.0), random_state=rs, accountant=acc())[0], 8))],
-    "histogramdd": [("3x3", lambda rs: repeat_cells(lambda: T.histogramdd(
+    "histogramdd": [("big:26x26x26", lambda rs: chunks(T.histogramdd(_x3(), epsilon=0.05, bins=26, range=[(0.0, 1.0)] * 3,
+                                                                     random_state=rs, accountant=acc())[0])),
+                    ("big:130x130", lambda rs: chunks(T.histogramdd(_x3()[:, :2], epsilon=0.05, bins=130,
+                                                                    range=[(0.0, 1.0)] * 2, random_state=rs,
+                                                                    accountant=acc())[0])),
+                    ("3x3", lambda rs: repeat_cells(lambda: T.histogramdd(
         data()["X"][:, :2], epsilon=0.05, bins=3, range=[(0.0, 1.0), (0.0, 1.0)], random_state=rs, accountant=acc())[0], 8))],
-    "histogram2d": [("3x3", lambda rs: repeat_cells(lambda: T.histogram2d(
+    "histogram2d": [("big:150x150", lambda rs: chunks(T.histogram2d(_x3()[:, 0], _x3()[:, 1], epsilon=0.05, bins=150,
+                                                                    range=[(0.0, 1.0)] * 2, random_state=rs,
+                                                                    accountant=acc())[0])),
+                    ("3x3", lambda rs: repeat_cells(lambda: T.histogram2d(
         data()["X"][:, 0], data()["X"][:, 1], epsilon=0.05, bins=3, range=[(0.0, 1.0), (0.0, 1.0)], random_state=rs,
         accountant=acc())[0], 8))],
-    "quantile": [("axis0", lambda rs: cont(cell=T.quantile(data()["X"], 0.3, epsilon=1.0, bounds=(0.0, 1.0), axis=0,
+    "quantile": [("big:1024-columns", lambda rs: cont(cell=T.quantile(_wide(), 0.5, epsilon=1.0, bounds=(0.0, 1.0), axis=0,
+                                                                    random_state=rs, accountant=acc())[::8])),
+                 ("axis0", lambda rs: cont(cell=T.quantile(data()["X"], 0.3, epsilon=1.0, bounds=(0.0, 1.0), axis=0,
                                                            random_state=rs, accountant=acc()))),
                  ("multi", lambda rs: cont(q=T.quantile(data()["X"][:, 0], [0.2, 0.5, 0.8], epsilon=1.0, bounds=(0.0, 1.0),
                                                         random_state=rs, accountant=acc()))),
@@ -326,6 +396,45 @@ MODEL_PARTS = {
          _tree_empty_out)],
 }
 
+def _big_data():
+    if "Bx" not in _DATA:
+        rs = np.random.RandomState(79)
+        _DATA["Bx"] = rs.uniform(-1, 1, (1200, 24)) / np.sqrt(24)
+        _DATA["By"] = np.arange(1200) % 40
+    return _DATA["Bx"], _DATA["By"]
+
+
+BB = (-np.ones(24), np.ones(24))
+# size-dependent paths: many features / classes / trees / clusters (run directly only, not through the copy ways)
+BIG_MODEL_PARTS = {
+    "GaussianNB": [("big:40-classes-24-features", lambda rs: MD.GaussianNB(epsilon=5.0, bounds=BB, random_state=rs,
+                                                                           accountant=acc()),
+                    lambda e: cont(theta=e.fit(*_big_data()).theta_[::5, ::6]))],
+    "KMeans": [("big:8-clusters-24-features", lambda rs: MD.KMeans(n_clusters=8, epsilon=50.0, bounds=BB, random_state=rs,
+                                                                   accountant=acc()),
+                lambda e: cont(centers=e.fit(_big_data()[0]).cluster_centers_[:, ::6]))],
+    "StandardScaler": [("big:24-features", lambda rs: MD.StandardScaler(epsilon=5.0, bounds=BB, random_state=rs,
+                                                                       accountant=acc()),
+                        lambda e: cont(mean=e.fit(_big_data()[0]).mean_))],
+    "LinearRegression": [("big:24-features", lambda rs: MD.LinearRegression(epsilon=20.0, bounds_X=BB, bounds_y=(-1.0, 1.0),
+                                                                           random_state=rs, accountant=acc()),
+                          lambda e: cont(coef=e.fit(_big_data()[0], np.clip(_big_data()[0].sum(axis=1), -1, 1)).coef_[::3]))],
+    "LogisticRegression": [("big:10-classes", lambda rs: MD.LogisticRegression(epsilon=20.0, data_norm=1.5, max_iter=15,
+                                                                              random_state=rs, accountant=acc()),
+                            lambda e: cont(coef=e.fit(_big_data()[0], _big_data()[1] % 10).coef_[:, ::8]))],
+    "PCA": [("big:24-features", lambda rs: MD.PCA(n_components=6, epsilon=20.0, bounds=BB, data_norm=2.5, random_state=rs,
+                                                  accountant=acc()),
+             lambda e: (lambda p_: cont(components=p_.components_[:, ::6], explained_variance=p_.explained_variance_))(
+                 e.fit(_big_data()[0])))],
+    "RandomForestClassifier": [("big:48-trees", lambda rs: MD.RandomForestClassifier(
+        n_estimators=48, epsilon=0.5, bounds=BB, classes=list(range(40)), max_depth=5, random_state=rs, accountant=acc()),
+        lambda f: (lambda f_: disc(**{f"tree{i}": _leaf_labels(t) for i, t in enumerate(f_.estimators_)}))(
+            f.fit(*_big_data())))],
+    "DecisionTreeClassifier": [("big:depth-9", lambda rs: MD.DecisionTreeClassifier(
+        epsilon=0.05, bounds=BB, classes=list(range(40)), max_depth=9, random_state=rs, accountant=acc()),
+        lambda t: chunks(_leaf_labels(t.fit(*_big_data())), 4))],
+}
+
 # continuation sequences: first(estimator) [batch 1] -> round trip -> second(estimator) [batch 2, whose outputs are read]
 SEQ_PARTS = {
     "StandardScaler": [("partial_fit", MODEL_PARTS["StandardScaler"][0][1], _scaler_partial, _scaler_partial)],
@@ -388,6 +497,9 @@ for _n, _vs in SEQ_PARTS.items():
     for _v, _mk, _first, _second in _vs:
         for _w, _wf in ROUNDTRIPS.items():
             MODELS[_n].append((f"{_v}-then-{_v}|seq:{_w}", _seq_runner(_mk, _first, _wf, _second, _w != "continue")))
+for _n, _vs in BIG_MODEL_PARTS.items():
+    for _v, _mk, _out in _vs:
+        MODELS[_n].append((_v, (lambda mk, out: (lambda rs: out(mk(rs))))(_mk, _out)))
 MODELS["covariance_eig"] = [("full", _cov)]
 # estimators that make no structural draw: their unseeded fit must leave the global generators untouched as well
 NO_STRUCTURAL = {"GaussianNB", "StandardScaler", "LinearRegression", "LogisticRegression", "PCA", "covariance_eig"}
@@ -414,6 +526,7 @@ def all_entries():
     """(entry, variant, runner, group)"""
     out = [(n, "direct", f, "mechanism") for n, f in MECHS.items()]
     out += [(n, w, _via_copy(n, w), "mechanism") for n in MECH_PARTS for w in COPY_WAYS]
+    out += [(n, v, (lambda mk, dr: (lambda rs: dr(mk(rs))))(mk, dr), "mechanism") for n, v, mk, dr in MECH_EXTRA]
     for n, vs in TOOLS.items():
         out += [(n, v, f, "tool") for v, f in vs]
     for n, vs in MODELS.items():
@@ -473,9 +586,54 @@ def make_seed(kind):
     return "not-a-seed"
 
 
+class GlobalProxy(np.random.RandomState):
+    """stands in for numpy's global RandomState singleton (np.random.mtrand._rand) while an entry point runs: sklearn's
+    check_random_state(None) returns it and the library recognises it by identity, exactly as the real one; every DRAW
+    made from it is logged with the calling function"""
+
+    def __init__(self):
+        super().__init__()
+        self.set_state(np.random.get_state())
+        self.log = []
+
+    def __getattribute__(self, name):
+        attr = super().__getattribute__(name)
+        if name.startswith("_") or name in ("seed", "get_state", "set_state", "log") or not callable(attr):
+            return attr
+        log = super().__getattribute__("log")
+
+        def wrapped(*a, **k):
+            import os
+            import sys
+            fr = sys._getframe(1)
+            if fr.f_code is not wrapped.__code__:       # random() -> random_sample(): log the outer call only
+                log.append((name, os.path.basename(fr.f_code.co_filename), fr.f_code.co_name))
+            return attr(*a, **k)
+        return wrapped
+
+
+# data-independent choices the property excludes: (file, function) that may draw from the estimator's own generator
+STRUCTURAL_SITES = {("k_means.py", "_init_centers"), ("forest.py", "build"), ("forest.py", "fit")}
+LAST_DRAWS = []
+
+
 def observe(runner, kind):
-    """-> ('error', excname) | ('ok', sorted set of 'Mech:src') | ('crash', text, set so far)"""
+    """-> ('error', excname) | ('ok', sorted set of 'Mech:src') | ('crash', text, set so far); the draws made from numpy's
+    global generator during the call are left in LAST_DRAWS"""
     state = np.random.get_state()
+    real = np.random.mtrand._rand
+    proxy = GlobalProxy()
+    np.random.mtrand._rand = proxy
+    del LAST_DRAWS[:]
+    try:
+        return _observe(runner, kind)
+    finally:
+        LAST_DRAWS.extend(proxy.log)
+        np.random.mtrand._rand = real
+        np.random.set_state(state)
+
+
+def _observe(runner, kind):
     try:
         with warnings.catch_warnings():
             warnings.simplefilter("ignore")
@@ -492,7 +650,7 @@ def observe(runner, kind):
                             sorted({f"{type(o).__name__}:{src_of(getattr(o, '_rng', None))}" for o in rec.instances}))
         return ("ok", sorted({f"{type(o).__name__}:{src_of(getattr(o, '_rng', None))}" for o in rec.instances}))
     finally:
-        np.random.set_state(state)
+        pass
 
 
 def model_sites(plan_line):
@@ -545,7 +703,7 @@ def correspondence(ctx):
                 return "randomState" if (k == "globalSingleton" and ("|clone" in v or "|deepcopy" in v)) else k
             want_all, seen_all = set(), set()
             for (_, v, runner, group) in variants:
-                if "|seq:" in v and k not in ("none", "int"):
+                if ("|seq:" in v or v.startswith("big:")) and k not in ("none", "int"):
                     continue
                 want = model_sites(plan[(n, kind_for(v))])
                 want_err = bool(want) and all(w.endswith(":error") for w in want)
@@ -554,6 +712,14 @@ def correspondence(ctx):
                 ctx.case((n, v, k))
                 observed = set(r[1]) if r[0] == "ok" else (set(r[2]) if r[0] == "crash" else set())
                 if k == "none":
+                    bad = sorted({d for d in LAST_DRAWS if (d[1], d[2]) not in STRUCTURAL_SITES})
+                    ctx.count("global_draws_seen", len(LAST_DRAWS))
+                    for meth, fname, func in bad[:3]:
+                        ctx.violation(f"C14:{n}:global-numpy-draw:{fname}:{func}",
+                                      f"{n} [{v}] with random_state=None drew from numpy's global generator: "
+                                      f"{meth}() called in {fname}:{func} ({len([d for d in LAST_DRAWS if d[1:] == (fname, func)])} "
+                                      f"call(s)); only initial centres, tree structure and row shuffling may",
+                                      {"kind": "global-draw", "entry": n, "variant": v})
                     for ms in sorted(observed):
                         mech, src = ms.split(":", 1)
                         ok = src == "osCsprng" or (src == "freshGenerator" and mech in ("Staircase", "Bingham"))
@@ -830,6 +996,10 @@ def replay(ctx, data):
             return False
         g = src_of(r[1]._rng)
         return not (g == "osCsprng" or (g == "freshGenerator" and d["entry"] in ("Staircase", "Bingham")))
+    if d.get("kind") == "global-draw":
+        f, g = ent[(d["entry"], d["variant"])]
+        observe(f, "none")
+        return any((x[1], x[2]) not in STRUCTURAL_SITES for x in LAST_DRAWS)
     if d.get("kind") == "crs":
         return src_of(dp.utils.check_random_state(make_seed(d["seed"]), True)) != "osCsprng"
     return False
